@@ -42,7 +42,7 @@ pub fn describe_bounds(tier: Tier) -> String {
         "link sweep: entries {{eth2, sll, ether-type}} x all sequences of <= {} link extensions over {} variants x 12 net/transport suffixes (4 with deviations; in the quick tier additionally every sequence of 4 extensions - one more than the crate decodes - x 4 suffixes without deviations), <= {} deviation(s) in different layers of the link part (prefixes with more than {} extensions: one less) + all pairs of deviations inside one layer; \
          net sweep: 6 link prefixes x {{ipv4, ipv4+ah, ipv6 + every extension chain of length <= {} ({} with deviations) over {{hbh,dest,routing,frag,ah}}}} x {} transports, <= {} deviation(s) in different layers of the net/transport part (chains longer than {}: one less) + all in-layer pairs; \
          cross sweep: <= {} deviations anywhere over 30 reduced stackings; noise sweep: all literals of length <= {} over {{00,01,45,60,7f,80,ff}} + 0..64 filler bytes for every door; option sweep: all sequences of <= {} TCP option tokens (24 tokens: well formed, lying length bytes, unknown kinds) and <= {} NDP option tokens (40 tokens) cut at every byte, as raw option area and inside a TCP segment / neighbour solicitation; \
-         every packet is closed by trailers {{0,1,5}} behind the innermost length field and by EVERY truncation point (layers > 192 B: boundaries and every 64th byte); every suffix starting at a layer boundary is also a case under the door its parent announces",
+         bit sweep: {} well-formed packets (the cross stackings, SLL / ether-type / IP doors, all IPv6 extension kinds, IPv4 / TCP options, ICMP variants) with every single bit flipped, every byte inverted and every byte zeroed; every packet is closed by trailers {{0,1,5}} behind the innermost length field and by EVERY truncation point (layers > 192 B: boundaries and every 64th byte); every suffix starting at a layer boundary is also a case under the door its parent announces",
         b.link_exts,
         link_ext_alphabet(b.level).len(),
         b.link_dev,
@@ -55,7 +55,8 @@ pub fn describe_bounds(tier: Tier) -> String {
         b.cross_dev,
         b.noise_len,
         if b.level > 0 { 4 } else { 3 },
-        if b.level > 0 { 3 } else { 2 }
+        if b.level > 0 { 3 } else { 2 },
+        flip_stacks().len()
     )
 }
 
@@ -75,6 +76,7 @@ struct Plan {
     n_cross_units: u64,
     n_noise_units: u64,
     n_opt_units: u64,
+    flip_stacks: Vec<(Door, Vec<L>)>,
 }
 
 fn net_prefixes() -> Vec<(Door, Vec<L>, usize)> {
@@ -131,12 +133,32 @@ fn plan(tier: Tier) -> Plan {
     // cross units: (stack, first deviating layer)
     let n_cross_units = cross.iter().map(|(_, s)| s.len() as u64).sum();
     let n_opt_units = (tcp_opt_tokens().len() + ndp_opt_tokens().len()) as u64;
-    Plan { n_dev_prefixes, link_prefixes, n_link_units, chains0, n_net_units, cross_stacks: cross, n_cross_units, n_noise_units: NOISE_DOORS.len() as u64, n_opt_units }
+    Plan { n_dev_prefixes, link_prefixes, n_link_units, chains0, n_net_units, cross_stacks: cross, n_cross_units, n_noise_units: NOISE_DOORS.len() as u64, n_opt_units, flip_stacks: flip_stacks() }
 }
 
 pub fn units(tier: Tier) -> u64 {
     let p = plan(tier);
-    p.n_link_units + p.n_net_units + p.n_cross_units + p.n_noise_units + p.n_opt_units
+    p.n_link_units + p.n_net_units + p.n_cross_units + p.n_noise_units + p.n_opt_units + p.flip_stacks.len() as u64
+}
+
+/// base packets of the bit sweep: the 30 stackings of the cross sweep + SLL / ether-type / IP doors, all five IPv6
+/// extension kinds, IPv4 and TCP options, the ICMP variants
+fn flip_stacks() -> Vec<(Door, Vec<L>)> {
+    let pl = || L::opaque(6);
+    let mut stacks = cross_stacks();
+    stacks.push((Door::Sll, vec![L::new(Kind::Sll), L::vlan(0x88A8), L::new(Kind::Ipv4), L::new(Kind::Udp), pl()]));
+    stacks.push((Door::Sll, vec![L::new(Kind::Sll), L::new(Kind::Arp)]));
+    stacks.push((Door::Ether(0), vec![L::macsec(MACSEC_SCI), L::vlan(0x8100), L::new(Kind::Ipv6), L::new(Kind::Udp), pl()]));
+    stacks.push((Door::Ether(0), vec![L::vlan(0x88A8), L::vlan(0x8100), L::macsec(0), L::new(Kind::Ipv4), L::new(Kind::Tcp), pl()]));
+    stacks.push((Door::Eth2, vec![L::new(Kind::Eth2), L::macsec(MACSEC_C), pl()]));
+    stacks.push((Door::Eth2, vec![L::new(Kind::Eth2), L::new(Kind::Ipv6), L::new(Kind::Hbh), L::new(Kind::Dest), L::new(Kind::Routing), L::new(Kind::Dest), L::new(Kind::Frag), L::new(Kind::Ah), L::new(Kind::Tcp).with(|x| x.var = 8), pl()]));
+    stacks.push((Door::Ip, vec![L::new(Kind::Ipv4).with(|x| x.var = 4), L::new(Kind::Ah).with(|x| x.var = 4), L::new(Kind::Tcp).with(|x| x.var = 12), pl()]));
+    stacks.push((Door::Ip, vec![L::new(Kind::Ipv6), L::new(Kind::Icmpv6).with(|x| x.aux = 1), pl()]));
+    stacks.push((Door::Ip, vec![L::new(Kind::Ipv6), L::new(Kind::Icmpv6).with(|x| x.aux = 2), pl()]));
+    stacks.push((Door::Ip, vec![L::new(Kind::Ipv4), L::new(Kind::Icmpv4).with(|x| x.aux = 1)]));
+    stacks.push((Door::Ip, vec![L::new(Kind::Ipv4), L::new(Kind::Icmpv4).with(|x| x.aux = 3), pl()]));
+    stacks.push((Door::Ip, vec![L::new(Kind::Ipv6), L::new(Kind::Frag).with(|x| x.c = 1), L::new(Kind::Udp), pl()]));
+    stacks
 }
 
 /// option tokens: well-formed options, options whose length byte lies, unknown kinds
@@ -437,6 +459,49 @@ pub fn run_unit(tier: Tier, u: u64, ctx: &mut Ctx, check: CheckFn) {
         return;
     }
     let u = u - p.n_cross_units;
+    // ---------------- bit sweep: every single bit of a well-formed packet flipped, every byte inverted, every byte
+    // zeroed (bits a decoder has to ignore, masks that take a neighbouring bit, selector / length bits)
+    if u >= p.n_noise_units + p.n_opt_units {
+        let (door, stack) = &p.flip_stacks[(u - p.n_noise_units - p.n_opt_units) as usize];
+        let door = match door {
+            Door::Ether(0) => Door::Ether(match stack.first().map(|l| l.kind) {
+                Some(Kind::Vlan) => stack[0].aux,
+                Some(Kind::Macsec) => 0x88E5,
+                _ => ETHER_OPAQUE,
+            }),
+            d => *d,
+        };
+        let base = serialise(door, stack, 0);
+        let n = base.bytes.len();
+        for pos in 0..n {
+            for m in 0..10u8 {
+                let mut pkt = Packet { door: base.door, bytes: base.bytes.clone(), bounds: base.bounds.clone(), doors: base.doors.clone(), body_len: base.body_len, shape: String::new(), ndev: 1 };
+                let old = pkt.bytes[pos];
+                pkt.bytes[pos] = match m {
+                    0..=7 => old ^ (1 << m),
+                    8 => !old,
+                    _ => 0,
+                };
+                if pkt.bytes[pos] == old {
+                    continue;
+                }
+                let layer = pkt.bounds.iter().rposition(|b| *b <= pos).unwrap_or(0);
+                pkt.shape = format!("{}^bits@{}+{}", base.shape, layer, pos - pkt.bounds[layer]);
+                let shape = &pkt.shape;
+                pkt.for_each_case(Cuts::All, |cr| {
+                    ctx.case(
+                        Some(cr.key),
+                        || CaseDesc { shape: format!("{}@{}", shape, cr.layer), text: format!("door={} bytes={} (from {} layer {} cut {})", cr.door.name(), hex(cr.bytes), shape, cr.layer, cr.bytes.len()), rank: 1_500_000 + cr.bytes.len() as u64 },
+                        |case| check(cr.door, cr.bytes, shape, case),
+                    );
+                });
+                if ctx.done() {
+                    return;
+                }
+            }
+        }
+        return;
+    }
     // ---------------- option sweep: all sequences of <= 3 (TCP) / <= 2 (NDP) option tokens starting with token `u`,
     // cut at every byte, as raw option area and inside a TCP segment / a neighbour solicitation
     if u >= p.n_noise_units {
